@@ -15,13 +15,13 @@ CONFIG = {
     "harness": "h_c16",
     "level": "proof",
     "extra_proof_files": ["Link"],
-    "n": {"quick": 400, "thorough": 8000},
+    "n": {"quick": 320, "thorough": 8000},
     "shard": 60,
     "rule": "designed cases first (every statement kind the parser produces x a 6-user grant lattice x default db; bootstrap requests alone and with trailing statements x carriers; "
             "write-authoriser lattice; every carrier incl. 9 defective JWT classes x right/wrong password x shared secret set/unset; password change / drop / re-create histories; "
             "one metadata swap landing inside Authenticate), then seeded generation: HTTP request sequences (1-3 requests on one node, cache carried over) over random user tables "
             "(0-4 users, admin/no-admin shapes, grants 0..3 on 4 databases), single and multi-statement queries from 78 templates (+ malformed), GET/POST, /write and /api/v2/write; "
-            "SHOW DATABASES / SHOW CONTINUOUS QUERIES through the real coordinator.StatementExecutor (visible names); requests MIXING privileges that name a database with privileges that fall back to the request default, in every order (designed grid of 13 explicit x 13 default statement forms, both orders and sandwiches, multi-source/subquery/INTO selects; generated with the default set to a database the user lacks), directly and over HTTP; direct AuthorizeQuery/AuthorizeWrite calls incl. users not in the table and grants keyed by the empty name; cache histories of data.go operations, snapshots and authentications with current/old/foreign passwords. "
+            "SHOW DATABASES / SHOW CONTINUOUS QUERIES through the real coordinator.StatementExecutor (visible names); requests MIXING privileges that name a database with privileges that fall back to the request default, in every order (designed grid of 13 explicit x 13 default statement forms, both orders and sandwiches, multi-source/subquery/INTO selects; generated with the default set to a database the user lacks), directly and over HTTP; sessions on one node (tables installed, requests with the same credentials before and after, GRANT/REVOKE/GRANT ALL PRIVILEGES/REVOKE ALL PRIVILEGES/SET PASSWORD/DROP USER sent by an administrator and executed by the REAL coordinator.StatementExecutor on a meta.Data-backed MetaClient: designed = every held {none,0,1,2,3} x {GRANT,REVOKE} x {READ,WRITE,ALL}, admin flag set/unset, password change, removal, refused/failed statements; generated sessions); the user VALUE returned by every Authenticate (grants + admin flag) compared with the current metadata; direct AuthorizeQuery/AuthorizeWrite calls incl. users not in the table and grants keyed by the empty name; cache histories of data.go operations, snapshots and authentications with current/old/foreign passwords. "
             "distinct = distinct replayable description; non-trivial = something executed or was refused with 403 (req), non-empty table or query (authz), "
             "at least one successful authentication and two snapshots (hist), swap landed inside the call (race)",
     "trusted_base": [
@@ -30,11 +30,12 @@ CONFIG = {
         "C16: JWT validation (dgrijalva/jwt-go) is a black box: the model accepts exactly token class 0 (HMAC, shared secret, future numeric exp, string username); 9 defective classes are exercised",
         "C16: statements reaching the executor are counted by a recording StatementExecutor; 'reach' (how far the executor loop goes once authorised) is measured on the same handler with auth disabled",
         "C16: the fake meta server only serves snapshots; the client's own pollForUpdates/updateAuthCache install them; VerifAuthCache (build tag verif) is a read-only view of the cache",
+        "C16: user-management statements run in the real StatementExecutor against a MetaClient whose writes apply the real data.go operations to a meta.Data value and install it through the client's update loop (meta raft/HTTP command path not exercised); SET PASSWORD stores a pool hash chosen by the harness",
         "C16: the race case depends on timing to land the swap inside bcrypt (observable recorded; the property must hold for every landing position)",
     ],
     "modelled": "services/meta: UserInfo.AuthorizeDatabase, Data.user/CreateUser/DropUser/UpdateUser/SetPrivilege/SetAdminPrivilege/CreateDatabase/DropDatabase (user part), "
                 "QueryAuthorizer.AuthorizeQuery, WriteAuthorizer.AuthorizeWrite, Client.Authenticate/updateAuthCache/metadata swap; services/httpd: parseCredentials, authenticate middleware, "
-                "the authorisation-relevant prefix of serveQuery and serveWrite (v1/v2); coordinator.StatementExecutor SHOW DATABASES / SHOW CONTINUOUS QUERIES filtering through httpd.userQueryAuthorizer. "
+                "the authorisation-relevant prefix of serveQuery and serveWrite (v1/v2); coordinator.StatementExecutor SHOW DATABASES / SHOW CONTINUOUS QUERIES filtering through httpd.userQueryAuthorizer and its executeGrant/Revoke/GrantAdmin/RevokeAdmin/SetPasswordUser/DropUser statements (exec_stmt). "
                 "Not modelled: the other statement handlers of coordinator.StatementExecutor, prom read/write, flux, pprof, "
                 "ping auth, query execution, body parsing; concurrency only for Authenticate vs metadata swap",
     "assumptions": ["the cache's salted SHA-256 determines the password on the explored domain (premise salted_injective of the theorems)",
